@@ -230,6 +230,8 @@ func eq(this, that []types.Type) bool {
 // where the type also shows up in the types of the other parameters and the results:
 // the types are identical, or a named and an unnamed type with the same underlying type.
 // A type that merely implements an interface is not served by the function generated for the interface type.
+// Neither does a named type with methods share a function with the unnamed type it is defined from:
+// the generated code calls the methods (Equal, Compare, Hash, ...) of the one, which the other does not have.
 func sameFunctionServes(this, that types.Type) bool {
 	if types.Identical(this, that) {
 		return true
@@ -237,7 +239,15 @@ func sameFunctionServes(this, that types.Type) bool {
 	if _, isInterface := that.Underlying().(*types.Interface); isInterface {
 		return false
 	}
+	if hasMethods(this) || hasMethods(that) {
+		return false
+	}
 	return types.AssignableTo(this, that)
+}
+
+func hasMethods(typ types.Type) bool {
+	named, ok := types.Unalias(typ).(*types.Named)
+	return ok && named.NumMethods() > 0
 }
 
 func (tm *typesMap) nameOf(typs []types.Type) (string, bool) {
